@@ -2,7 +2,7 @@
 import errno
 import random
 
-from .common import signature, detail, case_of, account_build, nested_cache_rel
+from .common import FAULT_ERRNOS, signature, detail, case_of, account_build, nested_cache_rel
 from ..env import Scratch
 from ..world import World
 from ..gen import GenCfg, gen_program, program_shape
@@ -110,7 +110,7 @@ def run_shard(sh):
                     if sh.time_left() <= 0:
                         break
                     w.restore(tok, keep=True)
-                    code = rng.choice(['EIO', 'ENOSPC', 'EACCES'])
+                    code = rng.choice(FAULT_ERRNOS)
                     cls = rng.choice(['OSError', 'PermissionError'])
                     opts = {'fault': {'k': k, 'kinds': list(INJECT), 'phases': [ph], 'errno': code, 'cls': cls,
                                       'expect_fail': ph != 'root'}, 'c14': True}
